@@ -2,6 +2,7 @@
 copies <srcroot>/<P>/_seed/{A,B} into /verif/seeded/<P>-<letters[0]>, <P>-<letters[1]> (patch, demo, meta.txt -> meta.json 'needs')"""
 import sys, os, shutil, json
 root, letters = sys.argv[1], sys.argv[2]
+ROUND = {"CD": "second or third round", "EF": "fourth round"}.get(letters, "later round")
 for pid in sys.argv[3:]:
     for s, t in zip("AB", letters):
         d = "%s/%s/_seed/%s" % (root, pid, s)
@@ -12,7 +13,7 @@ for pid in sys.argv[3:]:
         for fn in ("patch.diff", "demo.py", "meta.txt"):
             if os.path.exists(os.path.join(d, fn)):
                 shutil.copy(os.path.join(d, fn), os.path.join(dst, fn))
-        meta = {"property": pid, "seed": t, "source": "independent sub-agent given only the property text and a scratch worktree (second round)",
+        meta = {"property": pid, "seed": t, "source": "independent sub-agent given only the property text and a scratch worktree (%s)" % ROUND + "",
                 "needs": open(os.path.join(dst, "meta.txt")).read().strip() if os.path.exists(os.path.join(dst, "meta.txt")) else "",
                 "ran": "tools/seedeval2.sh /verif/seeded/%s-%s <scratch worktree>  (= URAL_REPO=<worktree with patch> ./check %s --tier quick)" % (pid, t, pid)}
         json.dump(meta, open(os.path.join(dst, "meta.json"), "w"), indent=1, ensure_ascii=False)
